@@ -12,3 +12,6 @@ reg("C05", "undo")
 
 # C19 Immutable and thread-safe
 reg("C19", "types", level="proof")
+
+# C12 Character classes evaluate as sets
+reg("C12", "mustuse")
